@@ -112,4 +112,66 @@ func factsC05() {
 		return true
 	})
 	addStrList("c05FrontendMapsGuard", fm, "config.WriteFrontendMaps: first guard (skip when maps exist and hosts are clean)")
+	// what WriteFrontendMaps writes behind that single guard: the crt-list of the frontend, then every map,
+	// and only then the link `frontend.Maps` (left nil by a failed write: the next call is not skipped)
+	var fw []string
+	ast.Inspect(methodDecl("pkg/haproxy/config.go", "config", "WriteFrontendMaps").Body, func(n ast.Node) bool {
+		switch v := n.(type) {
+		case *ast.CallExpr:
+			if s := c05Expr(v.Fun); s == "writeMaps" || s == "c.options.mapsTemplate.WriteOutput" {
+				arg := ""
+				if len(v.Args) > 1 {
+					arg = c05Expr(v.Args[1])
+				}
+				fw = append(fw, s+"("+arg+")")
+			}
+		case *ast.AssignStmt:
+			if len(v.Lhs) == 1 && len(v.Rhs) == 1 && c05Expr(v.Lhs[0]) == "c.frontend.Maps" {
+				fw = append(fw, "c.frontend.Maps="+c05Expr(v.Rhs[0]))
+			}
+		}
+		return true
+	})
+	addStrList("c05FrontendMapsWrites", fw, "config.WriteFrontendMaps: file writes and the Maps link, in source order")
+	// writeCrtLists: no changed-guard, one crt-list per tcp port that has TLS
+	var cl []string
+	ast.Inspect(methodDecl("pkg/haproxy/instance.go", "instance", "writeCrtLists").Body, func(n ast.Node) bool {
+		switch v := n.(type) {
+		case *ast.IfStmt:
+			cl = append(cl, "if:"+c05Expr(v.Cond))
+		case *ast.RangeStmt:
+			cl = append(cl, "range:"+c05Expr(v.X))
+		case *ast.CallExpr:
+			if s := c05Expr(v.Fun); s == "i.crtlistTmpl.WriteOutput" {
+				cl = append(cl, s)
+			}
+		}
+		return true
+	})
+	addStrList("c05CrtListsShape", cl, "instance.writeCrtLists: loop, conditions and the write, in source order")
+	// a requested write is attempted: template.writeToDisk returns nil only after os.WriteFile
+	var ret []string
+	ast.Inspect(methodDecl("pkg/haproxy/template/template.go", "template", "writeToDisk").Body, func(n ast.Node) bool {
+		if r, ok := n.(*ast.ReturnStmt); ok && len(r.Results) == 1 {
+			if c, ok := r.Results[0].(*ast.CallExpr); ok {
+				ret = append(ret, c05Expr(c.Fun))
+			} else {
+				ret = append(ret, c05Expr(r.Results[0]))
+			}
+		}
+		return true
+	})
+	addStrList("c05WriteToDiskReturns", ret, "template.writeToDisk: return statements in source order (a single `return nil`, the last one)")
+	// WriteBackendMaps: the per-backend condition and the files of one backend
+	var bmc []string
+	ast.Inspect(methodDecl("pkg/haproxy/config.go", "config", "WriteBackendMaps").Body, func(n ast.Node) bool {
+		switch v := n.(type) {
+		case *ast.RangeStmt:
+			bmc = append(bmc, "range:"+c05Expr(v.X))
+		case *ast.IfStmt:
+			bmc = append(bmc, "if:"+c05Expr(v.Cond))
+		}
+		return true
+	})
+	addStrList("c05BackendMapsShape", bmc, "config.WriteBackendMaps: loops and conditions in source order")
 }
